@@ -28,7 +28,7 @@ Print Assumptions C08_factor_code_writer_encoding.
 
     FULL statement:
         typedn n we w a -> (n <= f)%nat ->
-        rdec f we re ropts0 w (Some r) (wire a ++ x) = lift x (resolve we re w r a)
+        rdec f we re ropts0 w (Some r) (wire a ++ x) = lift x (resolve ropts0 we re w r a)
 
     Proved ( _partial ): for schemas without by-name references, annotations only as dict-form primitives ([inline]), under the computable
     side condition [agree we re w r], which follows the specification's own traversal (the reader branch [spec_idx]
@@ -44,17 +44,17 @@ Print Assumptions C08_factor_code_writer_encoding.
     with the same conditions followed through the named-type tables to the depth of the value.
     MISSING for full strength: logicalType annotations on non-primitive types, nested unions, reader options
     (return_record_name ...) - for those C08_factor_code (all inputs) and the correspondence check stand. *)
-Theorem C08_factor_zone_partial : forall n we w a, typedn n we w a ->
+Theorem C08_factor_zone_partial : forall o, forall n we w a, typedn n we w a ->
   forall re r f x, (n <= f)%nat -> inline w = true -> inline r = true -> agree we re w r = true ->
-  rdec f we re ropts0 w (Some r) (wire a ++ x)%list = lift x (resolve we re w r a).
+  rdec f we re o w (Some r) (wire a ++ x)%list = lift x (resolve o we re w r a).
 Proof. exact rdec_resolve_zone_wire. Qed.
 Print Assumptions C08_factor_zone_partial.
 
 (** ... for every valid layout of the value (any block partition) *)
-Theorem C08_factor_zone_layout_partial : forall n we w l, typedl n we w l ->
+Theorem C08_factor_zone_layout_partial : forall o, forall n we w l, typedl n we w l ->
   forall re r f x, (n <= f)%nat -> typedn n we w (erase l) ->
   inline w = true -> inline r = true -> agree we re w r = true ->
-  rdec f we re ropts0 w (Some r) (wire_l l ++ x)%list = lift x (resolve we re w r (erase l)).
+  rdec f we re o w (Some r) (wire_l l ++ x)%list = lift x (resolve o we re w r (erase l)).
 Proof. exact rdec_resolve_zone. Qed.
 Print Assumptions C08_factor_zone_layout_partial.
 
@@ -82,18 +82,18 @@ Print Assumptions C08_record_guard_consistent.
 (** ... with by-name references: [scoped] = every reference resolves to a named type of its table ([env_scoped]: so do
     the references inside the tables), annotations only as dict-form primitives, unions not nested; [agreen k] = the
     conditions of [agree], followed through the tables down to depth k (the height of the value bounds what is visited) *)
-Theorem C08_factor_zone_refs_partial : forall n we w a, typedn n we w a ->
+Theorem C08_factor_zone_refs_partial : forall o, forall n we w a, typedn n we w a ->
   forall re r k f x, (n <= k)%nat -> (n <= f)%nat ->
   env_scoped we = true -> env_scoped re = true -> scoped we w = true -> scoped re r = true ->
   agreen k we re w r = true ->
-  rdec f we re ropts0 w (Some r) (wire a ++ x)%list = lift x (resolve we re w r a).
+  rdec f we re o w (Some r) (wire a ++ x)%list = lift x (resolve o we re w r a).
 Proof. exact rdec_resolve_zoneS. Qed.
 Print Assumptions C08_factor_zone_refs_partial.
 
-Theorem C08_rval_is_resolve_refs_partial : forall n we w a, typedn n we w a -> forall re r k f, (n <= k)%nat -> (n <= f)%nat ->
+Theorem C08_rval_is_resolve_refs_partial : forall o, forall n we w a, typedn n we w a -> forall re r k f, (n <= k)%nat -> (n <= f)%nat ->
   env_scoped we = true -> env_scoped re = true -> scoped we w = true -> scoped re r = true ->
   agreen k we re w r = true ->
-  rval f we re ropts0 w (Some r) a = resolve we re w r a.
+  rval f we re o w (Some r) a = resolve o we re w r a.
 Proof. exact rval_resolveS. Qed.
 Print Assumptions C08_rval_is_resolve_refs_partial.
 
@@ -114,97 +114,97 @@ Qed.
 Print Assumptions C08_branch_choice_is_spec_refs.
 
 (** the value-level statement alone *)
-Theorem C08_rval_is_resolve_partial : forall n we w a, typedn n we w a -> forall re r f, (n <= f)%nat ->
+Theorem C08_rval_is_resolve_partial : forall o, forall n we w a, typedn n we w a -> forall re r f, (n <= f)%nat ->
   inline w = true -> inline r = true -> agree we re w r = true ->
-  rval f we re ropts0 w (Some r) a = resolve we re w r a.
+  rval f we re o w (Some r) a = resolve o we re w r a.
 Proof. exact rval_resolve. Qed.
 Print Assumptions C08_rval_is_resolve_partial.
 
 (** ** C08_identity: with a reader schema equal to the writer schema, the specification returns what reading
     without a reader schema returns ([py_of]).  [wf_ident]: union branches do not capture each other, record
     fields find themselves by name, references resolve to named types. *)
-Theorem C08_identity : forall n e s a, typedn n e s a -> wf_ident n e s ->
-  exists v, py_of ropts0 e s a = Some v /\ resolve e e s s a = ROk v.
+Theorem C08_identity : forall o, forall n e s a, typedn n e s a -> wf_ident n e s ->
+  exists v, py_of o e s a = Some v /\ resolve o e e s s a = ROk v.
 Proof. exact resolve_identity. Qed.
 Print Assumptions C08_identity.
 
 (** ... and so does the code inside the zone (reader == writer given as a separate object, container route) *)
-Theorem C08_identity_code_partial : forall n e s a, typedn n e s a -> wf_ident n e s ->
+Theorem C08_identity_code_partial : forall o, forall n e s a, typedn n e s a -> wf_ident n e s ->
   inline s = true -> agree e e s s = true ->
   forall f x, (n <= f)%nat ->
-  exists v, py_of ropts0 e s a = Some v /\ rdec f e e ropts0 s (Some s) (wire a ++ x)%list = ROk (v, x).
+  exists v, py_of o e s a = Some v /\ rdec f e e o s (Some s) (wire a ++ x)%list = ROk (v, x).
 Proof. exact rdec_identity_zone. Qed.
 Print Assumptions C08_identity_code_partial.
 
 (** ** C08_error_*: when no rule applies the specification's result is the resolution error *)
-Theorem C08_error_no_default : forall we re w r l wn wal wfs rn ral rfs record tbl1 n fd tbl2,
+Theorem C08_error_no_default : forall o, forall we re w r l wn wal wfs rn ral rfs record tbl1 n fd tbl2,
   deref we w = SRecord wn wal wfs -> reader_side we re (SRecord wn wal wfs) r = Some (SRecord rn ral rfs) ->
   names_match wn rn ral = true ->
-  res_fields (resolve we re) rfs wfs l [] = ROk record ->
+  res_fields (resolve o we re) rfs wfs l [] = ROk record ->
   field_table rfs = (tbl1 ++ (n, fd) :: tbl2)%list ->
   Forall (fun e => dict_get record (fst e) <> None) tbl1 ->
   dict_get record n = None -> fdefault fd = None ->
-  resolve we re w r (ARecord l) = RErrResolution.
+  resolve o we re w r (ARecord l) = RErrResolution.
 Proof. exact error_no_default. Qed.
 Print Assumptions C08_error_no_default.
 
-Theorem C08_error_not_promotable : forall we re w r a dr,
+Theorem C08_error_not_promotable : forall o, forall we re w r a dr,
   is_prim (deref we w) = true -> fits (deref we w) a = true ->
   reader_side we re (deref we w) r = Some dr -> prim_match true (deref we w) dr = false ->
-  resolve we re w r a = RErrResolution.
+  resolve o we re w r a = RErrResolution.
 Proof. exact error_not_promotable. Qed.
 Print Assumptions C08_error_not_promotable.
 
-Theorem C08_error_unknown_symbol : forall we re w r i sym wn wal wsyms wd rn ral rsyms,
+Theorem C08_error_unknown_symbol : forall o, forall we re w r i sym wn wal wsyms wd rn ral rsyms,
   deref we w = SEnum wn wal wsyms wd -> reader_side we re (SEnum wn wal wsyms wd) r = Some (SEnum rn ral rsyms None) ->
   nthZ wsyms i = Some sym -> mem sym rsyms = false ->
-  resolve we re w r (AEnum i) = RErrResolution.
+  resolve o we re w r (AEnum i) = RErrResolution.
 Proof. exact error_unknown_symbol. Qed.
 Print Assumptions C08_error_unknown_symbol.
 
-Theorem C08_enum_default : forall we re w r i sym d wn wal wsyms wd rn ral rsyms,
+Theorem C08_enum_default : forall o, forall we re w r i sym d wn wal wsyms wd rn ral rsyms,
   deref we w = SEnum wn wal wsyms wd -> reader_side we re (SEnum wn wal wsyms wd) r = Some (SEnum rn ral rsyms (Some d)) ->
   names_match wn rn ral = true -> nthZ wsyms i = Some sym -> mem sym rsyms = false ->
-  resolve we re w r (AEnum i) = ROk (PStr d).
+  resolve o we re w r (AEnum i) = ROk (PStr d).
 Proof. exact enum_default. Qed.
 Print Assumptions C08_enum_default.
 
-Theorem C08_error_fixed_size : forall we re w r b wn wal wsz rn ral rsz,
+Theorem C08_error_fixed_size : forall o, forall we re w r b wn wal wsz rn ral rsz,
   deref we w = SFixed wn wal wsz -> reader_side we re (SFixed wn wal wsz) r = Some (SFixed rn ral rsz) ->
-  wsz <> rsz -> resolve we re w r (AFixed b) = RErrResolution.
+  wsz <> rsz -> resolve o we re w r (AFixed b) = RErrResolution.
 Proof. exact error_fixed_size. Qed.
 Print Assumptions C08_error_fixed_size.
 
-Theorem C08_error_name_mismatch :
+Theorem C08_error_name_mismatch : forall o,
   (forall we re w r b wn wal wsz rn ral rsz,
      deref we w = SFixed wn wal wsz -> reader_side we re (SFixed wn wal wsz) r = Some (SFixed rn ral rsz) ->
-     names_match wn rn ral = false -> resolve we re w r (AFixed b) = RErrResolution) /\
+     names_match wn rn ral = false -> resolve o we re w r (AFixed b) = RErrResolution) /\
   (forall we re w r i wn wal wsyms wd rn ral rsyms rd,
      deref we w = SEnum wn wal wsyms wd -> reader_side we re (SEnum wn wal wsyms wd) r = Some (SEnum rn ral rsyms rd) ->
-     names_match wn rn ral = false -> resolve we re w r (AEnum i) = RErrResolution) /\
+     names_match wn rn ral = false -> resolve o we re w r (AEnum i) = RErrResolution) /\
   (forall we re w r l wn wal wfs rn ral rfs,
      deref we w = SRecord wn wal wfs -> reader_side we re (SRecord wn wal wfs) r = Some (SRecord rn ral rfs) ->
-     names_match wn rn ral = false -> resolve we re w r (ARecord l) = RErrResolution).
-Proof. split; [exact error_name_mismatch_fixed|split; [exact error_name_mismatch_enum|exact error_name_mismatch_record]]. Qed.
+     names_match wn rn ral = false -> resolve o we re w r (ARecord l) = RErrResolution).
+Proof. intros o. split; [exact (error_name_mismatch_fixed o)|split; [exact (error_name_mismatch_enum o)|exact (error_name_mismatch_record o)]]. Qed.
 Print Assumptions C08_error_name_mismatch.
 
-Theorem C08_error_kind : forall we re w r a dr,
+Theorem C08_error_kind : forall o, forall we re w r a dr,
   is_union (deref we w) = false -> fits (deref we w) a = true ->
   reader_side we re (deref we w) r = Some dr -> same_kind (deref we w) dr = false ->
-  resolve we re w r a = RErrResolution.
+  resolve o we re w r a = RErrResolution.
 Proof. exact error_kind. Qed.
 Print Assumptions C08_error_kind.
 
-Theorem C08_error_no_branch : forall we re w r a rbs,
+Theorem C08_error_no_branch : forall o, forall we re w r a rbs,
   is_union (deref we w) = false -> fits (deref we w) a = true ->
   deref re r = SUnion rbs -> pick_branch we re (deref we w) rbs = None ->
-  resolve we re w r a = RErrResolution.
+  resolve o we re w r a = RErrResolution.
 Proof. exact error_no_branch. Qed.
 Print Assumptions C08_error_no_branch.
 
-Theorem C08_error_items : forall we re w r l wi ri,
+Theorem C08_error_items : forall o, forall we re w r l wi ri,
   deref we w = SArray wi -> reader_side we re (SArray wi) r = Some (SArray ri) ->
-  smatch we re true wi ri = false -> resolve we re w r (AArray l) = RErrResolution.
+  smatch we re true wi ri = false -> resolve o we re w r (AArray l) = RErrResolution.
 Proof. exact error_items. Qed.
 Print Assumptions C08_error_items.
 
@@ -214,8 +214,8 @@ Print Assumptions C08_error_items.
     the specification on every one of them. *)
 Theorem C08_old_code_refuted_F6 :
   typedn 1 [] SBytes f6_a /\
-  rdec_old 3 [] [] ropts0 SBytes (Some f6_r) (wire f6_a) <> lift [] (resolve [] [] SBytes f6_r f6_a) /\
-  rdec 3 [] [] ropts0 SBytes (Some f6_r) (wire f6_a) = lift [] (resolve [] [] SBytes f6_r f6_a).
+  rdec_old 3 [] [] ropts0 SBytes (Some f6_r) (wire f6_a) <> lift [] (resolve ropts0 [] [] SBytes f6_r f6_a) /\
+  rdec 3 [] [] ropts0 SBytes (Some f6_r) (wire f6_a) = lift [] (resolve ropts0 [] [] SBytes f6_r f6_a).
 Proof.
   destruct fixed_F6 as [H1 H2]. split; [exact typed_F6|]. rewrite old_F6, H1, H2. split; [discriminate|reflexivity].
 Qed.
@@ -224,7 +224,7 @@ Print Assumptions C08_old_code_refuted_F6.
 Theorem C08_old_code_refuted_F7 :
   typedn 3 f7_we f7_w f7_a /\
   rdec_old 5 f7_we f7_re ropts0 f7_w (Some f7_r) (wire f7_a) = RErrResolution /\
-  resolve f7_we f7_re f7_w f7_r f7_a = ROk f7_out /\
+  resolve ropts0 f7_we f7_re f7_w f7_r f7_a = ROk f7_out /\
   rdec 5 f7_we f7_re ropts0 f7_w (Some f7_r) (wire f7_a) = ROk (f7_out, []).
 Proof. destruct fixed_F7 as [H1 H2]. exact (conj typed_F7 (conj old_F7 (conj H2 H1))). Qed.
 Print Assumptions C08_old_code_refuted_F7.
@@ -232,7 +232,7 @@ Print Assumptions C08_old_code_refuted_F7.
 Theorem C08_old_code_refuted_ref_vs_union_inline :
   typedn 3 g1_we g1_w g1_a /\
   rdec_old 5 g1_we g1_re ropts0 g1_w (Some g1_r) (wire g1_a) = RErrOther /\
-  resolve g1_we g1_re g1_w g1_r g1_a = ROk g1_out /\
+  resolve ropts0 g1_we g1_re g1_w g1_r g1_a = ROk g1_out /\
   rdec 5 g1_we g1_re ropts0 g1_w (Some g1_r) (wire g1_a) = ROk (g1_out, []).
 Proof. destruct fixed_ref_vs_union_inline as [H1 H2]. exact (conj typed_g1 (conj old_ref_vs_union_inline (conj H2 H1))). Qed.
 Print Assumptions C08_old_code_refuted_ref_vs_union_inline.
@@ -242,9 +242,9 @@ Theorem C08_old_code_refuted_kind_not_compared :
   (rdec_old 5 [(s2b "R", g2_w)] [(s2b "R", g2_r)] ropts0 g2_w (Some g2_r) (wire (ARecord [AInt 1])) = RErrOther /\
    rdec_old 5 [(s2b "F", F4)] [(s2b "F", g2b_r)] ropts0 F4 (Some g2b_r) (wire (AFixed [1; 2; 3; 4])) = ROk (PBytes [1; 2; 3; 4], [])) /\
   (rdec 5 [(s2b "R", g2_w)] [(s2b "R", g2_r)] ropts0 g2_w (Some g2_r) (wire (ARecord [AInt 1])) = RErrResolution /\
-   resolve [(s2b "R", g2_w)] [(s2b "R", g2_r)] g2_w g2_r (ARecord [AInt 1]) = RErrResolution /\
+   resolve ropts0 [(s2b "R", g2_w)] [(s2b "R", g2_r)] g2_w g2_r (ARecord [AInt 1]) = RErrResolution /\
    rdec 5 [(s2b "F", F4)] [(s2b "F", g2b_r)] ropts0 F4 (Some g2b_r) (wire (AFixed [1; 2; 3; 4])) = RErrResolution /\
-   resolve [(s2b "F", F4)] [(s2b "F", g2b_r)] F4 g2b_r (AFixed [1; 2; 3; 4]) = RErrResolution).
+   resolve ropts0 [(s2b "F", F4)] [(s2b "F", g2b_r)] F4 g2b_r (AFixed [1; 2; 3; 4]) = RErrResolution).
 Proof. exact (conj typed_g2 (conj typed_g2b (conj old_kind fixed_kind))). Qed.
 Print Assumptions C08_old_code_refuted_kind_not_compared.
 
@@ -253,7 +253,7 @@ Theorem C08_old_code_refuted_default_unconverted :
   rdec_old 5 [(s2b "R", g3_w)] [(s2b "R", g3_r)] ropts0 g3_w (Some g3_r) (wire (ARecord [AInt 1]))
     = ROk (PDict [(PStr (s2b "x"), PInt 1); (PStr (s2b "b"), PStr [195; 191])], []) /\
   rdec 5 [(s2b "R", g3_w)] [(s2b "R", g3_r)] ropts0 g3_w (Some g3_r) (wire (ARecord [AInt 1])) = ROk (g3_out, []) /\
-  resolve [(s2b "R", g3_w)] [(s2b "R", g3_r)] g3_w g3_r (ARecord [AInt 1]) = ROk g3_out.
+  resolve ropts0 [(s2b "R", g3_w)] [(s2b "R", g3_r)] g3_w g3_r (ARecord [AInt 1]) = ROk g3_out.
 Proof. exact (conj typed_g3 (conj old_default_bytes fixed_default_bytes)). Qed.
 Print Assumptions C08_old_code_refuted_default_unconverted.
 
@@ -261,7 +261,7 @@ Theorem C08_old_code_refuted_int_to_float :
   typedn 1 [] SInt (AInt 16777217) /\
   rdec_old 3 [] [] ropts0 SInt (Some SFloat) (wire (AInt 16777217)) = ROk (PFloat 4715268810125344768, []) /\
   rdec 3 [] [] ropts0 SInt (Some SFloat) (wire (AInt 16777217)) = ROk (PFloat 4715268809856909312, []) /\
-  resolve [] [] SInt SFloat (AInt 16777217) = ROk (PFloat 4715268809856909312).
+  resolve ropts0 [] [] SInt SFloat (AInt 16777217) = ROk (PFloat 4715268809856909312).
 Proof. exact (conj typed_g4 (conj old_int_to_float fixed_int_to_float)). Qed.
 Print Assumptions C08_old_code_refuted_int_to_float.
 
@@ -270,7 +270,7 @@ Theorem C08_old_code_refuted_identity :
   typedn 3 g5_e g5_u g5_v /\
   rdec_old 5 g5_e g5_e ropts0 g5_u (Some g5_u) (wire g5_v) = RErrResolution /\
   rdec 5 g5_e g5_e ropts0 g5_u (Some g5_u) (wire g5_v) = ROk (g5_out, []) /\
-  resolve g5_e g5_e g5_u g5_u g5_v = ROk g5_out /\
+  resolve ropts0 g5_e g5_e g5_u g5_u g5_v = ROk g5_out /\
   py_of ropts0 g5_e g5_u g5_v = Some g5_out.
 Proof. exact (conj typed_g5 (conj old_identity_same_unqualified_name fixed_identity_same_unqualified_name)). Qed.
 Print Assumptions C08_old_code_refuted_identity.
@@ -280,7 +280,7 @@ Theorem C08_old_code_refuted_refs_by_name_only :
   rdec_old 5 [(s2b "R", g6_w); (s2b "F", F4)] [(s2b "R", g6_r); (s2b "F", F5)] ropts0 g6_w (Some g6_r) (wire g6_a)
     = ROk (PDict [(PStr (s2b "u"), PNone); (PStr (s2b "xs"), PList [])], []) /\
   rdec 5 [(s2b "R", g6_w); (s2b "F", F4)] [(s2b "R", g6_r); (s2b "F", F5)] ropts0 g6_w (Some g6_r) (wire g6_a) = RErrResolution /\
-  resolve [(s2b "R", g6_w); (s2b "F", F4)] [(s2b "R", g6_r); (s2b "F", F5)] g6_w g6_r g6_a = RErrResolution.
+  resolve ropts0 [(s2b "R", g6_w); (s2b "F", F4)] [(s2b "R", g6_r); (s2b "F", F5)] g6_w g6_r g6_a = RErrResolution.
 Proof. exact (conj typed_g6 (conj old_refs_by_name_only fixed_refs_by_name_only)). Qed.
 Print Assumptions C08_old_code_refuted_refs_by_name_only.
 
@@ -291,7 +291,7 @@ Example C08_example :
   typedn 3 [(s2b "R", ex_w)] ex_w ex_a /\
   wire ex_a = [4; 2; 120; 4; 121; 121; 0; 6; 6; 104; 195; 169] /\
   rdec 5 [(s2b "R", ex_w)] [(s2b "ns.R", ex_r)] ropts0 ex_w (Some ex_r) (wire ex_a ++ [7; 7])%list = ROk (ex_out, [7; 7]) /\
-  resolve [(s2b "R", ex_w)] [(s2b "ns.R", ex_r)] ex_w ex_r ex_a = ROk ex_out.
+  resolve ropts0 [(s2b "R", ex_w)] [(s2b "ns.R", ex_r)] ex_w ex_r ex_a = ROk ex_out.
 Proof. exact example_agree. Qed.
 
 Example C08_example_in_zone :
